@@ -97,6 +97,59 @@ func leanArms(name string, ts *ast.TypeSwitchStmt) string {
 	return b.String()
 }
 
+// skeleton: the statements of a function body in source order, flattened: `let x` (short variable
+// declaration), `set f` (assignment to a field; final selector component), `call name` (final
+// selector component or plain function name), `if`, `for`, `range local` / `range field f`,
+// `index local` / `index field f` (what a loop ranges over / what is indexed: a local variable or a
+// field — this is what distinguishes iterating over a snapshot from iterating over the live
+// field), `return`. Names of local variables are not part of the tie.
+func skeleton(fd *ast.FuncDecl) []string {
+	var out []string
+	base := func(e ast.Expr) string {
+		switch e := e.(type) {
+		case *ast.Ident:
+			return "local"
+		case *ast.SelectorExpr:
+			return "field " + e.Sel.Name
+		}
+		return "expr"
+	}
+	ast.Inspect(fd.Body, func(n ast.Node) bool {
+		switch n := n.(type) {
+		case *ast.AssignStmt:
+			for _, l := range n.Lhs {
+				switch l := l.(type) {
+				case *ast.SelectorExpr:
+					out = append(out, "set "+l.Sel.Name)
+				case *ast.Ident:
+					if n.Tok == token.DEFINE && l.Name != "_" && l.Name != "err" && l.Name != "ok" {
+						out = append(out, "let")
+					}
+				}
+			}
+		case *ast.CallExpr:
+			switch f := n.Fun.(type) {
+			case *ast.SelectorExpr:
+				out = append(out, "call "+f.Sel.Name)
+			case *ast.Ident:
+				out = append(out, "call "+f.Name)
+			}
+		case *ast.RangeStmt:
+			out = append(out, "range "+base(n.X))
+		case *ast.ForStmt:
+			out = append(out, "for")
+		case *ast.IfStmt:
+			out = append(out, "if")
+		case *ast.IndexExpr:
+			out = append(out, "index "+base(n.X))
+		case *ast.ReturnStmt:
+			out = append(out, "return")
+		}
+		return true
+	})
+	return out
+}
+
 func main() { ex.Main([]string{"VxfwCases.lean"}, gen) }
 
 func gen(c *ex.Ctx) {
@@ -137,6 +190,35 @@ func gen(c *ex.Ctx) {
 		return true
 	})
 	b.WriteString("def renderSorts : List String := [" + strings.Join(sorts, ", ") + "]\n\n")
+	// statement skeletons of the functions the model transcribes statement by statement; a
+	// function that is missing gets the skeleton ["?missing"] (the theorems then fail, the
+	// extractor does not).
+	b.WriteString("def skeletons : List (String × List String) := [\n")
+	sk := []struct{ recv, name string }{
+		{"focusHandler", "handleEvent"}, {"focusHandler", "updatePath"}, {"focusHandler", "findPath"},
+		{"focusHandler", "childHasFocus"}, {"focusHandler", "focusWidget"},
+		{"mouseHandler", "handleEvent"}, {"mouseHandler", "update"}, {"mouseHandler", "mouseExit"},
+		{"mouseHandler", "mouseEnter"}, {"", "hitTest"},
+	}
+	for i, x := range sk {
+		items := []string{ex.LeanStr("?missing")}
+		if fd := ex.FindFunc(f, x.recv, x.name); fd != nil && fd.Body != nil {
+			items = nil
+			for _, a := range skeleton(fd) {
+				items = append(items, ex.LeanStr(a))
+			}
+		}
+		nm := x.name
+		if x.recv != "" {
+			nm = x.recv + "." + x.name
+		}
+		b.WriteString("  (" + ex.LeanStr(nm) + ", [" + strings.Join(items, ", ") + "])")
+		if i+1 < len(sk) {
+			b.WriteString(",")
+		}
+		b.WriteString("\n")
+	}
+	b.WriteString("]\n\n")
 	b.WriteString("end VaxisModel.Gen.VxfwCases\n")
 	c.Write("VxfwCases.lean", b.String())
 }
